@@ -1171,6 +1171,9 @@ func (fc *funcContext) translateConversion(expr ast.Expr, desiredType types.Type
 			}
 			if t.Kind() == types.Float32 && isInteger(exprType.Underlying().(*types.Basic)) {
 				// Integers above 2^24 need rounding to single precision.
+				if is64Bit(exprType.Underlying().(*types.Basic)) && fc.pkgCtx.Types[expr].Value == nil {
+					return fc.formatExpr("$flatten64ToFloat32(%e)", expr)
+				}
 				return fc.formatExpr("$fround(%f)", expr)
 			}
 			return fc.formatExpr("%f", expr)
